@@ -922,3 +922,294 @@ Proof.
   assert (existsb (req_blocked s) (rclaims x) = true) by (apply existsb_exists; exists e; split; assumption).
   congruence.
 Qed.
+
+(* ------------------------------------------------------------------------------------------ *)
+(* Holds                                                                                       *)
+(* ------------------------------------------------------------------------------------------ *)
+
+Inductive anc (d : list row) : nat -> nat -> Prop :=
+| anc_parent : forall i x c, nth_error d i = Some x -> creator x = Some c -> anc d i c
+| anc_trans : forall i x c a, nth_error d i = Some x -> creator x = Some c -> anc d c a -> anc d i a.
+
+Definition row_ok (x : row) : Prop := holding x = 0%N /\ (st x = Running \/ st x = Succeeded).
+Definition row_ok_nh (x : row) : Prop := st x = Running \/ st x = Succeeded.
+
+Lemma ok_code_state : forall s, ok_code (code s) -> s = Running \/ s = Succeeded.
+Proof. intros s [H|H]; [left|right]; apply code_inj; exact H. Qed.
+
+Lemma chain_ok : forall fuel d c, fst (chain fuel d c) = true ->
+  (exists x, nth_error d c = Some x /\ row_ok x) /\
+  forall a, anc d c a -> exists ax, nth_error d a = Some ax /\ row_ok ax.
+Proof.
+  induction fuel as [|f IH]; intros d c H; simpl in H; [discriminate|].
+  destruct (nth_error d c) as [x|] eqn:En; [|discriminate].
+  destruct (creator x) as [cc|] eqn:Ec; simpl in H.
+  - apply rec_chain_spec in H. destruct H as [H1 [H2 H3]].
+    destruct (IH d cc H1) as [[cx [Ecx Hcx]] Hanc]. split.
+    + exists x. split; [reflexivity|]. split; [exact H3|apply ok_code_state; exact H2].
+    + intros a Ha. inversion Ha; subst.
+      * rewrite En in H. inversion H; subst. rewrite Ec in H0. inversion H0; subst. exists cx. split; assumption.
+      * rewrite En in H. inversion H; subst. rewrite Ec in H0. inversion H0; subst. apply Hanc. assumption.
+  - apply seed_chain_root_spec in H. destruct H as [H2 H3]. split.
+    + exists x. split; [reflexivity|]. split; [exact H3|apply ok_code_state; exact H2].
+    + intros a Ha. inversion Ha; subst; rewrite En in H; inversion H; subst; congruence.
+Qed.
+
+Lemma rec_chain_nh_spec : forall ch chn ps ph, rec_chain_nh ch chn ps ph = true -> chn = true /\ ok_code ps.
+Proof.
+  intros ch chn ps ph H. unfold rec_chain_nh in H. apply andb_prop in H. destruct H as [H1 H2].
+  split; [exact H1|apply ok_code_of_eqbs; exact H2].
+Qed.
+
+Lemma chain_nh_ok : forall fuel d c, snd (chain fuel d c) = true ->
+  (exists x, nth_error d c = Some x /\ row_ok_nh x) /\
+  forall a, anc d c a -> exists ax, nth_error d a = Some ax /\ row_ok_nh ax.
+Proof.
+  induction fuel as [|f IH]; intros d c H; simpl in H; [discriminate|].
+  destruct (nth_error d c) as [x|] eqn:En; [|discriminate].
+  destruct (creator x) as [cc|] eqn:Ec; simpl in H.
+  - apply rec_chain_nh_spec in H. destruct H as [H1 H2].
+    destruct (IH d cc H1) as [[cx [Ecx Hcx]] Hanc]. split.
+    + exists x. split; [reflexivity|]. apply ok_code_state; exact H2.
+    + intros a Ha. inversion Ha; subst.
+      * rewrite En in H. inversion H; subst. rewrite Ec in H0. inversion H0; subst. exists cx. split; assumption.
+      * rewrite En in H. inversion H; subst. rewrite Ec in H0. inversion H0; subst. apply Hanc. assumption.
+  - unfold seed_chain_nh in H. simpl in H. split.
+    + exists x. split; [reflexivity|]. apply ok_code_state. apply ok_code_of_eqbs. exact H.
+    + intros a Ha. inversion Ha; subst; rewrite En in H0; inversion H0; subst; congruence.
+Qed.
+
+(* The dispatch decision: a step is moved to RUNNING only if every step ancestor is RUNNING or
+   SUCCEEDED and has no open hold. Unconditional. *)
+Theorem dispatch_running_ancestors_ok :
+  forall s i x, nth_error (db s) i = Some x -> has_hash x = false -> step s (EDispatch i) <> None ->
+    st x = Pending /\ attached x = true /\
+    forall a, anc (db s) i a ->
+      exists ax, nth_error (db s) a = Some ax /\ holding ax = 0%N /\ (st ax = Running \/ st ax = Succeeded).
+Proof.
+  intros s i x En Eh Hacc. simpl in Hacc. rewrite En in Hacc.
+  destruct (eligible_row s x) eqn:El; [|congruence]. clear Hacc.
+  unfold eligible_row in El. apply andb_prop in El. destruct El as [Ew Ex]. rewrite Eh in Ew.
+  apply dispatch_where_nohash in Ew. destruct Ew as [Ec Es].
+  apply select_extra_spec in Ex. destruct Ex as [Ed _].
+  split; [apply code_inj; exact Ec|]. split; [destruct (attached x); [reflexivity|discriminate]|].
+  intros a Ha. unfold safe_pair in Es. inversion Ha; subst.
+  - rewrite En in H. inversion H; subst. rewrite H0 in Es. simpl in Es. rewrite rec_safe_spec in Es.
+    destruct (chain_ok _ _ _ Es) as [[cx [E1 [E2 E3]]] _]. exists cx. repeat split; assumption.
+  - rewrite En in H. inversion H; subst. rewrite H0 in Es. simpl in Es. rewrite rec_safe_spec in Es.
+    destruct (chain_ok _ _ _ Es) as [_ Hanc]. destruct (Hanc a H1) as [ax [E1 [E2 E3]]]. exists ax. repeat split; assumption.
+Qed.
+
+(* The hash-check bypass: with a stored hash the step may be dispatched under an open hold, but
+   only to CHECKING, every ancestor is still RUNNING or SUCCEEDED, and no command is started. *)
+Theorem checking_runs_no_command :
+  forall s i x s', nth_error (db s) i = Some x -> has_hash x = true -> step s (EDispatch i) = Some s' ->
+    map cmds (db s') = map cmds (db s) /\
+    (exists y, nth_error (db s') i = Some y /\ st y = Checking) /\
+    forall a, anc (db s) i a -> exists ax, nth_error (db s) a = Some ax /\ (st ax = Running \/ st ax = Succeeded).
+Proof.
+  intros s i x s' En Eh Es. simpl in Es. rewrite En in Es.
+  destruct (eligible_row s x) eqn:El; [|discriminate]. inversion Es; subst; clear Es. simpl.
+  rewrite Eh, dispatch_checking. split; [|split].
+  - apply map_upd_ext. intros; reflexivity.
+  - exists (set_st Checking x). split; [apply nth_error_upd_same; exact En|reflexivity].
+  - unfold eligible_row in El. apply andb_prop in El. destruct El as [Ew _].
+    apply dispatch_where_pending in Ew. destruct Ew as [_ Ew].
+    assert (Hnh : snd (safe_pair (db s) x) = true).
+    { destruct Ew as [Ew|[_ Ew]]; [|exact Ew]. unfold safe_pair in *. destruct (creator x) as [c|]; simpl in *.
+      - rewrite rec_safe_spec in Ew. apply chain_nh_weaker. exact Ew.
+      - reflexivity. }
+    intros a Ha. unfold safe_pair in Hnh. inversion Ha; subst.
+    + rewrite En in H. inversion H; subst. rewrite H0 in Hnh. simpl in Hnh.
+      destruct (chain_nh_ok _ _ _ Hnh) as [[cx [E1 E2]] _]. exists cx. split; assumption.
+    + rewrite En in H. inversion H; subst. rewrite H0 in Hnh. simpl in Hnh.
+      destruct (chain_nh_ok _ _ _ Hnh) as [_ Hanc]. destruct (Hanc a H1) as [ax [E1 E2]]. exists ax. split; assumption.
+Qed.
+
+(* a failed check drops the stored hash: from then on only the full guard can dispatch the step *)
+Theorem mismatch_drops_hash :
+  forall s i s', step s (ECheckDone i CMismatch) = Some s' ->
+    exists y, nth_error (db s') i = Some y /\ has_hash y = false /\ st y = Pending.
+Proof.
+  intros s i s' Es. simpl in Es. destruct (nth_error (db s) i) as [x|] eqn:En; [|discriminate].
+  destruct (sstate_eqb (st x) Checking); [|discriminate]. inversion Es; subst; clear Es. simpl.
+  destruct (core_nth _ _ _ _ (detach_created_core (db s) i) En) as [x' [En' _]].
+  exists (set_state_tr Pending (set_has_hash false x')).
+  split; [exact (nth_error_upd_same _ i (fun y => set_state_tr Pending (set_has_hash false y)) x' En')|].
+  destruct (set_state_tr_fields Pending (set_has_hash false x')) as [F1 [_ [_ [F4 _]]]].
+  split; [rewrite F4; reflexivity|exact F1].
+Qed.
+
+(* ghost level, for histories in which no executing step is recycled *)
+Theorem held_step_does_not_run_partial_proof :
+  forall (s0 : sys) (evs : list event), Inv s0 -> quiet s0 evs ->
+    let s := run s0 evs in
+    forall i x, nth_error (db s) i = Some x -> has_hash x = false -> step s (EDispatch i) <> None ->
+      forall a ax m, anc (db s) i a -> nth_error (db s) a = Some ax -> In m (cmds ax) -> depth m = 0%N.
+Proof.
+  intros s0 evs HI Hq s i x En Eh Hacc a ax m Ha Ea Hm.
+  destruct (dispatch_running_ancestors_ok s i x En Eh Hacc) as [_ [_ Hanc]].
+  destruct (Hanc a Ha) as [ax' [Ea' [Hh _]]]. rewrite Ea in Ea'. inversion Ea'; subst ax'.
+  destruct (Inv_run evs s0 HI Hq) as [HK _]. fold s in HK.
+  pose proof (Forall_nth _ _ _ _ HK Ea) as HKa. unfold Krow in HKa.
+  destruct (cmds ax) as [|m1 [|m2 r]]; [contradiction| |contradiction].
+  destruct Hm as [Hm|[]]. subst m1. destruct HKa as [_ [_ Hd]]. rewrite Hd. exact Hh.
+Qed.
+
+Theorem release_below_zero_rejected_proof :
+  forall s i k x, nth_error (db s) i = Some x -> holding x = 0%N ->
+    step s (ERelease i k) = None /\ apply s (ERelease i k) = s.
+Proof.
+  intros s i k x En Hh.
+  assert (E : step s (ERelease i k) = None).
+  { simpl. rewrite En. destruct (nth_error (cmds x) k); [|reflexivity].
+    destruct (release_guard (holding x)) eqn:Eg; [|reflexivity].
+    apply release_guard_spec in Eg. contradiction. }
+  split; [exact E|]. unfold apply. rewrite E. reflexivity.
+Qed.
+
+(* nested holds: the counter follows hold/release exactly *)
+Theorem hold_release_counter :
+  forall s i k x m, nth_error (db s) i = Some x -> nth_error (cmds x) k = Some m ->
+    (exists y, nth_error (db (apply s (EHold i k))) i = Some y /\ holding y = (holding x + 1)%N) /\
+    (holding x <> 0%N ->
+       exists y, nth_error (db (apply s (ERelease i k))) i = Some y /\ holding y = (holding x - 1)%N).
+Proof.
+  intros s i k x m En Ek. split.
+  - unfold apply. simpl. rewrite En, Ek. simpl. eexists. split; [apply nth_error_upd_same; exact En|reflexivity].
+  - intro Hh. unfold apply. simpl. rewrite En, Ek. apply release_guard_spec in Hh. rewrite Hh. simpl.
+    eexists. split; [apply nth_error_upd_same; exact En|reflexivity].
+Qed.
+
+(* the trigger: any write of a state other than RUNNING zeroes the counter *)
+Theorem holding_reset_on_leaving_running_proof :
+  (forall ns x, ns <> Running -> holding (set_state_tr ns x) = 0%N) /\
+  (forall s i k o s', step s (EComplete i k o) = Some s' ->
+     exists y, nth_error (db s') i = Some y /\ holding y = 0%N /\ st y = state_of_outcome o /\ st y <> Running).
+Proof.
+  split; [exact set_state_tr_holding|].
+  intros s i k o s' Es. simpl in Es. destruct (nth_error (db s) i) as [x|] eqn:En; [|discriminate].
+  destruct (nth_error (cmds x) k); [|discriminate]. inversion Es; subst; clear Es. simpl.
+  set (f := fun y => set_has_hash (match o with OSucc => true | _ => false end)
+              (set_state_tr (state_of_outcome o) (set_cmds (remove_nth k (cmds y)) y))).
+  assert (Hns : state_of_outcome o <> Running) by (destruct o; discriminate).
+  assert (E1 : nth_error (upd (db s) i f) i = Some (f x)) by (apply nth_error_upd_same; exact En).
+  assert (Hf : holding (f x) = 0%N /\ st (f x) = state_of_outcome o).
+  { unfold f. destruct (set_state_tr_fields (state_of_outcome o) (set_cmds (remove_nth k (cmds x)) x)) as [F1 _].
+    split; [apply (set_state_tr_holding _ _ Hns)|exact F1]. }
+  destruct Hf as [Hf1 Hf2].
+  destruct o.
+  - exists (f x). repeat split; try assumption. rewrite Hf2. exact Hns.
+  - destruct (core_nth _ _ _ _ (detach_created_core (upd (db s) i f) i) E1) as [y [Ey Hy]].
+    apply core_inv in Hy. destruct Hy as [Y1 [Y2 _]]. exists y. split; [exact Ey|].
+    rewrite Y1, Y2. repeat split; try assumption. rewrite Hf2. exact Hns.
+  - exists (f x). repeat split; try assumption. rewrite Hf2. exact Hns.
+Qed.
+
+(* consequence for failed (or pending) creators: their children are not dispatched to RUNNING *)
+Theorem failed_creator_blocks_children :
+  forall s i x c cx, nth_error (db s) i = Some x -> has_hash x = false -> creator x = Some c ->
+    nth_error (db s) c = Some cx -> (st cx = Failed \/ st cx = Pending \/ st cx = Checking) ->
+    step s (EDispatch i) = None.
+Proof.
+  intros s i x c cx En Eh Ec Ecx Hst. destruct (step s (EDispatch i)) eqn:Es; [|reflexivity]. exfalso.
+  assert (Hacc : step s (EDispatch i) <> None) by congruence.
+  destruct (dispatch_running_ancestors_ok s i x En Eh Hacc) as [_ [_ Hanc]].
+  destruct (Hanc c (anc_parent _ _ _ _ En Ec)) as [ax [E1 [_ E3]]]. rewrite Ecx in E1. inversion E1; subst.
+  destruct Hst as [H|[H|H]]; destruct E3 as [E3|E3]; congruence.
+Qed.
+
+(* the tables account for exactly what executes (K), so the SUM of the guard is the true usage *)
+Lemma used_eq_cmd_used : forall r d, Forall Krow d -> used r d = cmd_used r d.
+Proof.
+  intros r d H. unfold used, cmd_used. induction H as [|x l HKx _ IH]; simpl; [reflexivity|].
+  rewrite IH. f_equal.
+  unfold Krow in HKx. unfold row_used, row_cmd_used. destruct (cmds x) as [|m [|m2 t]]; simpl.
+  - destruct HKx as [H1 _]. destruct (st x); try reflexivity. congruence.
+  - destruct HKx as [H1 [H2 _]]. rewrite H1, gc_running. unfold cmd_units. rewrite H2. lia.
+  - contradiction.
+Qed.
+
+Theorem db_sum_within_availability_partial :
+  forall (s0 : sys) (evs : list event), Inv s0 -> quiet s0 evs ->
+    forall r, used r (db (run s0 evs)) = cmd_used r (db (run s0 evs)) /\
+              (used r (db (run s0 evs)) <= availz (avail s0) r)%N.
+Proof.
+  intros s0 evs HI Hq r. destruct (Inv_run evs s0 HI Hq) as [HK [_ HR]].
+  pose proof (used_eq_cmd_used r _ HK) as E.
+  split; [exact E|]. rewrite E, <- (run_avail evs s0). apply HR.
+Qed.
+
+(* ------------------------------------------------------------------------------------------ *)
+(* Witnesses: recycling a step whose command is executing breaks the full statements           *)
+(* ------------------------------------------------------------------------------------------ *)
+
+Definition plan_row : row := mkRow 0 None true Running 0 false [] 0 false need_PLAN true [mkCmd [] 0].
+Definition sys0 : sys := mkSys [plan_row] [(1%N, 1%N)] need_OPTIONAL.
+Definition meta_all : event := ESetMeta (repeat (false, need_DEFAULT, true) 8).
+
+Lemma sys0_inv : Inv sys0.
+Proof.
+  unfold Inv, sys0; simpl. repeat split.
+  - constructor; [|constructor]. unfold Krow; simpl. repeat split.
+  - constructor; [|constructor]. unfold Vrow; simpl. constructor.
+  - intro r. unfold cmd_used. simpl. lia.
+Qed.
+
+Lemma sys0_U : Uall (avail sys0) (db sys0).
+Proof. constructor; [|constructor]. intros m [Hm|[]] e He. subst m. contradiction. Qed.
+
+(* plan (row 0, executing) defines P (1). P runs, defines S (2, gpu:1) and T (3, gpu:1); S runs.
+   P ends asking to be deferred and is dispatched again; its rerun detaches S and T and declares
+   S again without resources (full recycle of the executing S) and T with gpu:1. T is dispatched. *)
+Definition witness_claims_replaced : list event :=
+  [ EDefine 0 1 0 [] need_DEFAULT; meta_all; EDispatch 1; EReset 1;
+    EDefine 1 2 0 [(1%N, 1%N)] need_DEFAULT; EDefine 1 3 0 [(1%N, 1%N)] need_DEFAULT;
+    meta_all; EDispatch 2; EReset 2;
+    EComplete 1 0 ODefer; meta_all; EDispatch 1; EReset 1;
+    EDefine 1 2 0 [] need_DEFAULT; EDefine 1 3 0 [(1%N, 1%N)] need_DEFAULT;
+    meta_all; EDispatch 3 ].
+
+(* same, but S is declared again with a different output list: partial recycle resets the row of the
+   executing S to PENDING and S is dispatched a second time *)
+Definition witness_row_reset : list event :=
+  [ EDefine 0 1 0 [] need_DEFAULT; meta_all; EDispatch 1; EReset 1;
+    EDefine 1 2 0 [(1%N, 1%N)] need_DEFAULT;
+    meta_all; EDispatch 2; EReset 2;
+    EComplete 1 0 ODefer; meta_all; EDispatch 1; EReset 1;
+    EDefine 1 2 1 [(1%N, 1%N)] need_DEFAULT;
+    meta_all; EDispatch 2 ].
+
+(* S opens a hold block and declares C (4) inside it; the rerun of P recycles S, which zeroes
+   S's counter although the block is still open; C is dispatched. *)
+Definition witness_hold_zeroed : list event :=
+  [ EDefine 0 1 0 [] need_DEFAULT; meta_all; EDispatch 1; EReset 1;
+    EDefine 1 2 0 [] need_DEFAULT;
+    meta_all; EDispatch 2; EReset 2; EHold 2 0; EDefine 2 3 0 [] need_DEFAULT;
+    EComplete 1 0 ODefer; meta_all; EDispatch 1; EReset 1;
+    EDefine 1 2 0 [] need_DEFAULT; meta_all ].
+
+Theorem resources_full_refuted_claims_replaced :
+  exists (s0 : sys) (evs : list event) (r : N),
+    Inv s0 /\ (availz (avail s0) r < cmd_used r (db (run s0 evs)))%N.
+Proof. exists sys0, witness_claims_replaced, 1%N. split; [exact sys0_inv|]. vm_compute. reflexivity. Qed.
+
+Theorem resources_full_refuted_row_reset :
+  exists (s0 : sys) (evs : list event) (r : N),
+    Inv s0 /\ (availz (avail s0) r < cmd_used r (db (run s0 evs)))%N /\
+    exists x, nth_error (db (run s0 evs)) 2 = Some x /\ length (cmds x) = 2.
+Proof.
+  exists sys0, witness_row_reset, 1%N. split; [exact sys0_inv|]. split; [vm_compute; reflexivity|].
+  eexists. split; vm_compute; reflexivity.
+Qed.
+
+Theorem hold_full_refuted :
+  exists (s0 : sys) (evs : list event) (i a : nat) (x ax : row) (m : cmd),
+    Inv s0 /\ let s := run s0 evs in
+    nth_error (db s) i = Some x /\ has_hash x = false /\ step s (EDispatch i) <> None /\
+    creator x = Some a /\ nth_error (db s) a = Some ax /\ In m (cmds ax) /\ depth m = 1%N.
+Proof.
+  exists sys0, witness_hold_zeroed, 3, 2. eexists. eexists. eexists. split; [exact sys0_inv|].
+  cbv zeta. split; [vm_compute; reflexivity|]. split; [reflexivity|]. split; [vm_compute; discriminate|].
+  split; [reflexivity|]. split; [vm_compute; reflexivity|]. split; [left; reflexivity|reflexivity].
+Qed.
